@@ -951,7 +951,33 @@ def corpus_cases(rng, limit=None):
         yield f, {"files": {path: text}, "root": path, "include_dir": None, "queries": qs}
 
 
-STREAMS = {"grammar": gen_grammar, "sem": gen_sem, "bang": gen_bang, "inc": gen_inc, "big": gen_big}
+# declarations that lack a name, a type or an operand, names that are not one token, widths that overflow: the early exits of
+# the indexer (each program reaches several; found unvisited by the owners' streams in the coverage study)
+ODD = [
+    'class ;\ndefset int = {}\ndefvar = 1;\nforeach = [1] in def f1;\nmulticlass { def a; }\nclass T<int>;\nmulticlass M { def a; }\ndefm x : ;\nclass R { int f; let = 1; int g = f.; }\n',
+    'multiclass M { def a; }\ndefm x : M, ;\nmulticlass N { defm y : M, ; }\nclass C<int x>;\ndefm dm : M, C<1 = 2>;\ndef d : ;\n',
+    'class A { field 1 x; field int y; list<1> l; bits<> b; }\ndefset 1 s = {}\nclass B<1 x>;\n',
+    'class A { bits<4> f; let f{} = 0; let f{1-} = 0; let f{0...9223372036854775807, 0...9223372036854775807, 0...1} = 0; }\nclass C { bits<1> x = { 0b }; bits<2> y = { 0b, 0b1 }; }\n',
+    'defvar a = !foreach(); defvar b = !subst(); defvar c = !foldl(); defvar d = !filter(); defvar l = !filter(x, [1, 2], !eq(x, 1));\n',
+    'class A;\ndef "a" "b" : A;\ndef "c\\"" : A;\ndef "" : A;\ndef "a" # "b" : A;\ndef "x" : A;\ndef q : A { A r = x; }\n',
+    'defvar x = !if({1, 0}, 1, 2);\ndefvar y = !if(0b1, "a", "b");\nclass B; class D : B; class E : B;\ndefvar l = [D<>, B<>];\ndefvar m = [D<>, E<>];\ndefvar n = [D<>, 1];\n',
+    'class A<int x> { bits<4> f; int g = x; }\ndef d : A<x = 1> { let f{1-0} = 1; }\ndef e : A<x = 2, x = 3>;\ndef h : A<y = 1>;\ndefset list<A> s = { defm : M; def in_s : A<1>; }\n',
+    'class A { int v = !substr("abc", 1); int w = !substr("abc", 1, 2); list<int> r = !range(3); list<int> q = !range(1, 4, 2); '
+    'int f = !foldl(0, [1, 2], acc, e, !add(acc, e)); list<int> m = !foreach(e, [1], !add(e, 1)); list<int> k = !filter(e, [1, 2], !lt(e, 2)); string s = !subst("a", "b", "abc"); }\n',
+]
+
+
+def gen_odd(rng, size):
+    t = rng.choice(ODD)
+    if rng.random() < 0.4:
+        t = rng.choice(ODD) + t
+    if rng.random() < 0.3:
+        # a second file that uses / repeats the declarations
+        return {"files": {"/w/a.td": 'include "b.td"\n' + t, "/w/b.td": rng.choice(ODD)}, "root": "/w/a.td"}
+    return {"files": {"/w/a.td": t}, "root": "/w/a.td"}
+
+
+STREAMS = {"grammar": gen_grammar, "sem": gen_sem, "bang": gen_bang, "inc": gen_inc, "big": gen_big, "odd": gen_odd}
 
 
 # ----------------------------------------------------------------------------- library entry
@@ -979,7 +1005,7 @@ def run_streams(streams, n, seed=1, oplog=False, shrink_budget=15, max_report=6,
                         ok += 1
             else:
                 gen = STREAMS[s]
-                count = n if s != "big" else max(2, n // 60)
+                count = n if s not in ("big", "odd") else (max(2, n // 60) if s == "big" else max(12, n // 10))
                 for i in range(count):
                     rng = random.Random("%s-%d-%d" % (s, seed, i))
                     size = 1 + (i * 12) // max(1, n) if s != "bang" else 2 + (i * 30) // max(1, n)
